@@ -92,6 +92,20 @@ def _eval_variant(args):
         return rec
     keys, err = run_rules(mod, m2)
     new = keys - base
+    if kind == 'refactor' and new:
+        # a known finding whose site was moved by the refactoring re-appears
+        # under a new key: tolerated when, per rule, no more findings appear
+        # than known findings vanished
+        kk = set(known_keys())
+        vanished = {}
+        for r_, k_ in base - keys:
+            if k_ in kk:
+                vanished[r_] = vanished.get(r_, 0) + 1
+        appeared = {}
+        for r_, k_ in new:
+            appeared[r_] = appeared.get(r_, 0) + 1
+        if all(appeared[r_] <= vanished.get(r_, 0) for r_ in appeared):
+            new = set()
     rec['new_findings'] = sorted(k for _, k in new)[:4]
     if err:
         rec['analysis_error'] = err
